@@ -13,7 +13,8 @@ use serde_json::json;
 use crate::common::*;
 
 fn name(r: &mut StdRng) -> Vec<u8> {
-    let pool: [&[u8]; 8] = [b"\x00", b"\x01a\x00", b"\x01A\x00", b"\x03www\x01a\x00", b"\x03WWW\x01a\x00", b"\x02ns\x03www\x01a\x00", b"\x01*\x01a\x00", b"\x03wWw\x01A\x00"];
+    let pool: [&[u8]; 11] = [b"\x00", b"\x01a\x00", b"\x01A\x00", b"\x03www\x01a\x00", b"\x03WWW\x01a\x00", b"\x02ns\x03www\x01a\x00", b"\x01*\x01a\x00", b"\x03wWw\x01A\x00",
+                             b"\x03w[w\x01a\x00", b"\x03w{W\x01a\x00", b"\x04_x@1\x01a\x00"];
     if r.gen_bool(0.06) {
         // a name of 254 / 255 (maximal) / 256 (too long) octets, letters in both cases
         let total = *[254usize, 255, 255, 256].choose(r).unwrap();
@@ -123,6 +124,8 @@ pub fn main(args: &[String]) {
         let b = if r.gen_bool(0.5) {
             let mut b = a.clone();
             for x in b.iter_mut() { if x.is_ascii_alphabetic() && r.gen_bool(0.5) { *x ^= 0x20; } }
+            // now and then also bit 5 of an octet next to the letters in the code table ([ \ ] ^ _ ` { | } ~ @): not a case variant
+            if r.gen_bool(0.15) { for x in b.iter_mut() { if (*x >= 0x40 && *x < 0x80) && !x.is_ascii_alphabetic() { *x ^= 0x20; break; } } }
             if r.gen_bool(0.2) { b.push(0); }
             b
         } else { gen(&mut r, class, ty) };
